@@ -179,6 +179,8 @@ def _prop_of(meta, rule):
     if rule in ("tick-counter-before", "tick-counter-not-plus-one-per-tick", "ticks-executed",
                 "run-available-did-not-stop"):
         return "C24"
+    if rule == "pull-vs-push-outputs-differ":
+        return "C22"
     if meta["prop"] == "CAL":
         n = meta["name"]
         return "C26" if n.startswith("cal_loop") else "C25" if n.startswith("cal_ref") else \
@@ -393,6 +395,10 @@ def run(tier):
         if key in explained:
             fp = KNOWN_RNR
             what = "reduce_no_replay on the push side does not emit when the first item of an empty accumulator arrives alone after tick 0 (program %s)" % m["name"]
+        elif rule == "pull-vs-push-outputs-differ":
+            fp = "dfirtick/%s/pull-vs-push-outputs-differ" % m["name"]
+            what = ("program %s history %d step %d: the push-placed and the pull-placed instance of the same "
+                    "operator, fed identical input, delivered different per-tick outputs" % (m["name"], h, step))
         else:
             fp = "dfirtick/%s/%s/%s" % (metas[m["base"]]["name"], m["variant"] or "base", rule)
             what = "program %s history %d step %d: rule %s broken (model vs real outputs in replay file)" % (m["name"], h, step, rule)
@@ -435,6 +441,8 @@ def run(tier):
     for prop in PROPS:
         rr = res[prop]
         mine = [m for m in progs if m["prop"] == prop or (m["prop"] == "CAL" and _prop_of(m, "outputs") == prop)]
+        if prop == "C22":        # + the pull/push pair programs (side against side)
+            mine = mine + [m for m in progs if m["desc"].get("pairs") and m not in mine]
         if prop == "C24":
             mine = progs        # tick counter / ticks executed are bound for every program
         keys = set()
@@ -476,6 +484,7 @@ def run(tier):
     res["C21"].extra["coverage_table"] = dict(sorted(table.items()))
     res["C21"].extra["uncovered_operators"] = uncovered
     res["C22"].extra["compile_verdict_groups"] = ngroups
+    res["C22"].extra["pull_push_pairs"] = sum(len(m["desc"].get("pairs", [])) for m in progs)
     res["C22"].extra["variant_kinds"] = sorted({m["variant"] for m in progs if m["variant"]})
     res["C21"].extra["calibration_programs"] = sum(1 for m in progs if m["calibration"])
     return res
